@@ -1,4 +1,4 @@
 From Coq Require Import Extraction ExtrOcamlBasic.
-From OV Require Import Common.Base C12.Model.
+From OV Require Import Common.Base C12.Model C12.OWModel.
 Extraction Language OCaml.
-Extraction "C12_model.ml" init step free_of repaired today.
+Extraction "C12_model.ml" init step free_of repaired today ow_init ow_step.
